@@ -31,14 +31,14 @@ def parse_obs(lines):
         elif cur: o[cur].append(l)
     return o
 
-def run_cases(exe, md, cases, root, valid_dir="-", leak=0, jobs=16, timeout=1200, env_extra=None):
+def run_cases(exe, md, cases, root, valid_dir="-", leak=0, jobs=16, timeout=1200, env_extra=None, mode=0):
     """cases: list of (cid, dir, ast-or-None). returns (impl {cid: obs}, model {cid: lines})"""
     def script(part):
         L = []
         for cid, d, ast in part:
             L.append("case %s" % cid)
             if ast is not None: L.append("c13ast " + ast)
-            L.append("c13run %s %s %d" % (d, valid_dir, leak))
+            L.append("c13run %s %s %d" % (d, valid_dir, leak) + (" 8000 %d" % mode if mode else ""))
         return "\n".join(L) + "\n"
     model = {}
     if md is not None:
